@@ -167,13 +167,28 @@ func MarkInflight[C any](rec *ev.Recorder, check string, c C) {
 	}
 	rf := replayFile{Property: rec.ID, Check: check, Message: "the test process died with a fatal error while evaluating this case", Key: "", Case: raw}
 	b, _ := json.Marshal(rf)
-	_ = os.MkdirAll(rec.Env.PartsDir, 0o755)
-	_ = os.WriteFile(inflightPath(rec), b, 0o644)
+	if inflightFile == nil {
+		_ = os.MkdirAll(rec.Env.PartsDir, 0o755)
+		f, err := os.OpenFile(inflightPath(rec), os.O_CREATE|os.O_RDWR|os.O_TRUNC, 0o644)
+		if err != nil {
+			return
+		}
+		inflightFile = f
+	}
+	if _, err := inflightFile.WriteAt(b, 0); err == nil {
+		_ = inflightFile.Truncate(int64(len(b)))
+	}
 }
+
+var inflightFile *os.File
 
 // ClearInflight removes the marker (call when a check finished normally).
 func ClearInflight(rec *ev.Recorder) {
 	if CrashGuard {
+		if inflightFile != nil {
+			inflightFile.Close()
+			inflightFile = nil
+		}
 		_ = os.Remove(inflightPath(rec))
 	}
 }
